@@ -268,6 +268,31 @@ func escRuns(r *Run, letters []string, mods []string, regionKind string) {
 			}
 		}
 	}
+	if regionKind != "" {
+		open_, close_ := "{% "+regionKind+" %}", "{% end"+regionKind+" %}"
+		// chunks made of control characters (and of DEL / non-ASCII bytes) only — none of the characters that have a short
+		// escape — as static text and as values, inside the region
+		for _, chunk := range []string{"\x01", "a\x1bb", "\x0b", "\x0e\x1f", "x\x7f", "\x02\x03\x04", "\u00e9\x05", "\x00"} {
+			for _, val := range []string{"\x06", "plain", "\x1c-\x1d", ""} {
+				src := open_ + chunk + "{%= v %}" + chunk + "{%= v pfx ( sfx ) %}" + close_ + "|" + open_ + open_ + chunk + close_ + chunk + close_
+				c := &RCase{Tpls: []TplDef{{Key: "main", Src: src, KeepFmt: true}}, Meta: map[string]any{"control-chunk-in-region": fmt.Sprintf("%q", chunk), "value": fmt.Sprintf("%q", val)}}
+				c.Ops = []SOp{{Kind: "static", Name: "v", Val: val}, {Kind: "render", Key: "main"}, {Kind: "render", Key: "main"}}
+				cases = append(cases, c)
+				r.Dist["control-chunk-in-region"]++
+			}
+		}
+		// a render that FAILS inside the region (a missing include, a failing modifier in a ctx tag, a failing writer)
+		// leaves nothing open: the next render on the same context — without Reset — escapes once, and what follows its
+		// own region not at all
+		for _, bad := range []string{open_ + `x y{% include escnosuch %}` + close_, open_ + `x{% for i := 0; i < 2; i++ %}{% include escnosuch %}{% endfor %}`, open_ + open_ + `{% ctx e = v|vfail() %}z`} {
+			main := open_ + `<a "b"> {%= v %}` + close_ + `|<{%= v %}>`
+			c := &RCase{Tpls: []TplDef{{Key: "bad", Src: bad, KeepFmt: true}, {Key: "main", Src: main, KeepFmt: true}}, Meta: map[string]any{"render-after-failed-render-in-region": bad}}
+			c.Ops = []SOp{{Kind: "static", Name: "v", Val: `a b&c<d>"e'/f`}, {Kind: "render", Key: "bad"}, {Kind: "render", Key: "main"}, {Kind: "render", Key: "main", FailAt: 2}, {Kind: "render", Key: "main"},
+				{Kind: "render", Key: "bad"}, {Kind: "render", Key: "bad"}, {Kind: "render", Key: "main"}}
+			cases = append(cases, c)
+			r.Dist["render-after-failed-render-in-region"]++
+		}
+	}
 	typed := []SOp{{Kind: "static", Name: "v", Val: math.Inf(1)}, {Kind: "static", Name: "v", Val: math.Inf(-1)}, {Kind: "static", Name: "v", Val: math.NaN()}, {Kind: "static", Name: "v", Val: 1e21},
 		{Kind: "static", Name: "v", Val: int64(-15)}, {Kind: "static", Name: "v", Val: int8(-3)}, {Kind: "static", Name: "v", Val: int64(math.MinInt64)},
 		{Kind: "static", Name: "v", Val: uint64(7)}, {Kind: "static", Name: "v", Val: -0.5}, {Kind: "static", Name: "v", Val: 1e-7}, {Kind: "static", Name: "v", Val: true},
@@ -401,6 +426,40 @@ func escViaCtxVar(r *Run, mods []string) {
 							map[string]any{"template": sh.src, "v": v, "w": w, "output": string(got.Out), "expected": sh.want, "print_form": `{%= v|` + call + ` %}`, "print_form_output": E, "error": got.ErrStr(), "parse_error": fmt.Sprint(err), "panic": got.Panic + pan})
 					}
 				}
+			}
+		}
+	}
+}
+
+// helperNamespaces: a user's condition helper registered under a namespace keeps its own meaning whatever its base
+// name is — `vns::len`, `vns::cap`, `vns::lenEq0` are the user's functions, not the built-in pseudo-helpers of those
+// names (a relation on the real engine alone: each form with `vns::<name>` renders what the same form renders with
+// the un-namespaced twin `vyes`, which is the same function).
+func helperNamespaces(r *Run) {
+	for _, name := range []string{"len", "cap", "lenEq0", "veq", "default"} {
+		for _, form := range []string{`{% if H(x) %}Y{% else %}N{% endif %}`, `{%= H(x) ? ya : na %}`, `{% switch %}{% case H(x) %}C{% default %}D{% endswitch %}`, `{% for i := 0; i < 3; i++ %}{% break if H(x) %}{%= i %}{% endfor %}`,
+			`{% if H(y) %}Y{% else %}N{% endif %}{% if H(x) %}Y{% endif %}`} {
+			var outs [2]rendered
+			bad := ""
+			for k, h := range []string{"vns::" + name, "vyes"} {
+				key, err, pan := regTpl(strings.ReplaceAll(form, "H", h), true)
+				if err != nil || pan != "" {
+					bad = fmt.Sprintf("Parse rejects %s: %v %s", h, err, pan)
+					break
+				}
+				ctx := dyntpl.NewCtx()
+				ctx.SetString("x", "yes")
+				ctx.SetString("y", "no")
+				ctx.SetStatic("ya", "a")
+				ctx.SetStatic("na", "b")
+				outs[k] = renderSafe(key, ctx)
+			}
+			sig := "helper-namespace vns::" + name + " form=" + form
+			r.Count(sig, true)
+			r.Dist["helper-namespace"]++
+			if bad != "" || outs[0].ErrStr() != outs[1].ErrStr() || !bytes.Equal(outs[0].Out, outs[1].Out) {
+				r.Violate(sig, "a condition helper registered under a namespace (RegisterCondFnNS) does not render what the same function renders under a plain name",
+					map[string]any{"form": form, "helper": "vns::" + name + " = vyes = func(args) bool { text(args[0]) == \"yes\" }", "output": string(outs[0].Out), "plain_name_output": string(outs[1].Out), "error": outs[0].ErrStr(), "problem": bad})
 			}
 		}
 	}
